@@ -38,7 +38,7 @@ def main():
     target = "/repo" if in_repo else wt
     rc, out = sh("git -C %s apply %s" % (target, patch))
     assert rc == 0, out
-    cenv = dict(os.environ, VERIF_REPO=target)
+    cenv = dict(os.environ, VERIF_REPO=target, VERIF_EVIDENCE_DIR="/verif/build/seed_evidence")
     try:
         for c in checks:
             t0 = time.time()
